@@ -78,9 +78,9 @@ theorem invalidateLocation_same (cfg : Cfg) (req : Req) (respH : Header) (hdr : 
     (hne : (Header.get respH hdr).isEmpty = false) (hg : cfg.loc hdr = some g)
     (hs : sameOrigin req.scheme req.host g.scheme g.host = true)
     (h : Run (invalidateLocation cfg req respH hdr deleted cont) tr r) :
-    ∃ a tr', tr = Step.getRefs (makeURLKeyOf g.kScheme g.kHost g.kPath g.kQuery g.kOpaq) a :: tr' ∧
+    ∃ a tr', tr = Step.getRefs g.key a :: tr' ∧
       ∃ tr1 tr2 d, tr' = tr1 ++ tr2 ∧ Run (cont d) tr2 r ∧
-        makeURLKeyOf g.kScheme g.kHost g.kPath g.kQuery g.kOpaq ∈ d ∧ (∀ ref ∈ a.getD [], ref.id ∈ d) ∧
+        g.key ∈ d ∧ (∀ ref ∈ a.getD [], ref.id ∈ d) ∧
         (∀ x ∈ d, x ∈ deleted ∨ Step.delete x ∈ tr1) := by
   unfold invalidateLocation at h
   simp only [hne, Bool.false_eq_true, ↓reduceIte, hg, hs] at h
